@@ -24,7 +24,13 @@ pub enum FmtPlan {
     FailSet(Vec<usize>),
     /// each call rejected with probability permille/1000, decided by a PRNG seeded with `seed`
     Random { permille: u32, seed: u64 },
+    /// the sink panics in its k-th write_str (an index out of range in a fixed array, an `expect` on a full queue); the
+    /// caller catches the unwind and goes on using the thread
+    PanicAt(usize),
 }
+
+/// payload of a panic raised by a simulated sink
+pub struct SinkPanic;
 
 #[derive(Clone, Debug, Serialize, Deserialize, PartialEq)]
 pub enum IoAct {
@@ -38,6 +44,8 @@ pub enum IoAct {
     WouldBlock,
     /// the stream accepts nothing: Ok(0) - write_all turns it into ErrorKind::WriteZero
     Zero,
+    /// the writer panics; the caller catches the unwind
+    Panic,
 }
 
 #[derive(Clone, Debug, Serialize, Deserialize, PartialEq)]
@@ -95,6 +103,13 @@ impl fmt::Write for FmtSink {
             FmtPlan::Capacity(c) => self.text.len() + s.len() > *c,
             FmtPlan::FailSet(v) => v.contains(&k),
             FmtPlan::Random { permille, .. } => self.rng.chance(*permille),
+            FmtPlan::PanicAt(f) => {
+                if k == *f {
+                    self.history.push(Event { len: s.len(), taken: 0, ok: false, kind: "panic" });
+                    std::panic::panic_any(SinkPanic);
+                }
+                false
+            }
         };
         if reject {
             self.history.push(Event { len: s.len(), taken: 0, ok: false, kind: "reject" });
@@ -131,6 +146,7 @@ impl IoSink {
                 "error" => Some((i, IoAct::Error)),
                 "wouldblock" => Some((i, IoAct::WouldBlock)),
                 "zero" => Some((i, IoAct::Zero)),
+                "panic" => Some((i, IoAct::Panic)),
                 _ => None,
             })
             .collect()
@@ -190,6 +206,10 @@ impl io::Write for IoSink {
             Some(IoAct::Zero) => {
                 self.history.push(Event { len: buf.len(), taken: 0, ok: false, kind: "zero" });
                 Ok(0)
+            }
+            Some(IoAct::Panic) => {
+                self.history.push(Event { len: buf.len(), taken: 0, ok: false, kind: "panic" });
+                std::panic::panic_any(SinkPanic);
             }
         }
     }
